@@ -611,6 +611,78 @@ func checkC06(c *Ctx, r *Report) {
 	if bad == 0 {
 		r7.OK("no directConnNotifs acquisition under conns", token.NoPos, nAcq, "")
 	}
+
+	// ---- R8 ---------------------------------------------------------------
+	r8 := r.Rule("C06-R8", "E1", 1, "removeConn takes exactly the closing connection off the peer's list: the list is rewritten only past the comparison of an element with the connection given, the rewritten list is one shorter, and the peer is forgotten only when no connection is left")
+	if f := r8.need(sw + "removeConn"); f != nil {
+		cp := f.Params[1]
+		connsK := "struct{sync.RWMutex; m map[" + Mod + "core/peer.ID][]*" + Mod + swarmP + ".Conn}.m"
+		isConnsM := func(v ssa.Value) bool {
+			fl, base := loadOfField(strip2(v))
+			if fl == nil || fl.Name() != "m" {
+				return false
+			}
+			_ = base
+			return strings.Contains(types.TypeString(v.Type(), nil), swarmP+".Conn")
+		}
+		_ = connsK
+		isC := func(v ssa.Value) bool {
+			v = resolveLoad(strip2(v))
+			return v == ssa.Value(cp) || isParamCellLoad(c, v, cp)
+		}
+		isElem := func(v ssa.Value) bool {
+			// an element of the peer's list
+			return !isC(v) && derivesFrom(v, func(x ssa.Value) bool {
+				lk, ok := x.(*ssa.Lookup)
+				return ok && isConnsM(lk.X)
+			})
+		}
+		same := eqEdge(isElem, isC, true)
+		var from []CFGEdge
+		for _, b := range blocksDeep(f) {
+			for si := range b.Succs {
+				if same(b, si) {
+					from = append(from, CFGEdge{b, si})
+				}
+			}
+		}
+		rewrites := findInstrs(f, func(in ssa.Instruction) bool {
+			mu, ok := in.(*ssa.MapUpdate)
+			return ok && isConnsM(mu.Map)
+		})
+		if len(from) == 0 {
+			r8.OK("removeConn: the list is rewritten only for the connection given", f.Pos(), 1, "not decided: no comparison of a list element with the connection recognised (a library filter?)")
+		} else {
+			r8.guard(f, "rewrite the peer's list", rewrites, "an element is the connection given", same, nil)
+			dels := findInstrs(f, func(in ssa.Instruction) bool {
+				return isCallTo(in, "builtin.delete") && isConnsM(callArgs(in.(ssa.CallInstruction))[0])
+			})
+			r8.mustPass(f, "removeConn: once the connection is found the list is rewritten", &Cut{Fn: f, FromEdges: from, Target: isRetInstr, Sep: inSet(append(append([]ssa.Instruction{}, rewrites...), dels...))}, len(from))
+			okShort := len(rewrites) >= 1
+			for _, in := range rewrites {
+				sl, isS := resolveLoad(strip2(in.(*ssa.MapUpdate).Value)).(*ssa.Slice)
+				if !isS || sl.High == nil {
+					okShort = false
+					continue
+				}
+				bo, isB := resolveLoad(strip2(sl.High)).(*ssa.BinOp)
+				k, isK := int64(0), false
+				if isB {
+					k, isK = constInt(bo.Y)
+				}
+				if !isB || bo.Op != token.SUB || !isK || k != 1 || isResultOfCall(resolveLoad(strip2(bo.X)), 0, "builtin.len") == nil {
+					okShort = false
+				}
+			}
+			r8.Check(okShort, "removeConn: the rewritten list is one element shorter", f.Pos(), len(rewrites), "", "the list keeps a dead connection (still counted as connected) or loses a live one", "")
+			isLen := func(v ssa.Value) bool {
+				ci := isResultOfCall(resolveLoad(strip2(v)), 0, "builtin.len")
+				return ci != nil && derivesFrom(ci.Common().Args[0], func(x ssa.Value) bool { lk, ok := x.(*ssa.Lookup); return ok && isConnsM(lk.X) })
+			}
+			zero := func(v ssa.Value) bool { k, ok := constInt(v); return ok && k == 0 }
+			r8.guard(f, "forget the peer", dels, "no connection is left", anyEdge(eqEdge(isLen, zero, true), edgeExcl(isLen, zero, ordGT)), nil)
+		}
+	}
 }
 
 // flagGuard: the targets are executed only when a boolean flag is true, and
